@@ -186,6 +186,8 @@ class Eff:
         for p, dv in d.items():
             if isinstance(dv, ast.Constant) and (isinstance(dv.value, bool) or dv.value is None) and p in tested:
                 out.append(p)
+        if f.name == "__init__" and any(is_self_attr(x, "_do_init") for n in walk_no_nested(f.node) if isinstance(n, (ast.If, ast.IfExp)) for x in ast.walk(n.test)):
+            out.append("__do_init__")  # pseudo flag: True when a new element is built, False when an existing node is wrapped
         return out
 
     def summary(self, f: FuncInfo, consts: dict[str, Any] | None = None) -> Summary:
@@ -342,6 +344,8 @@ class _FuncAnalysis:
         """True/False if decided by constant flags, else None."""
         if isinstance(t, ast.Constant):
             return bool(t.value)
+        if is_self_attr(t, "_do_init") and "__do_init__" in self.cenv:
+            return bool(self.cenv["__do_init__"])
         if isinstance(t, ast.Name) and t.id in self.cenv:
             return bool(self.cenv[t.id])
         if isinstance(t, ast.UnaryOp) and isinstance(t.op, ast.Not):
@@ -585,6 +589,8 @@ class _FuncAnalysis:
             for p in flags:
                 if isinstance(d.get(p), ast.Constant):
                     consts[p] = d[p].value
+            if "__do_init__" in flags and "__do_init__" in self.cenv and self.f.name == "__init__":
+                consts["__do_init__"] = self.cenv["__do_init__"]
             for k, c in (const_args or {}).items():
                 if isinstance(k, int):
                     if k < len(names) and names[k] in flags:
